@@ -326,11 +326,11 @@ class SimA(Simulator):
 
         async def send(msg):
             nonlocal pending_swap, held
-            if held is not None and not isinstance(msg, EM.TagsUpdatedMsg):
-                h, held = held, None          # only two tag messages of one batch can overtake each other
+            if held is not None and type(msg) is not type(held):
+                h, held = held, None          # only two data messages of one kind can overtake each other
                 pending_swap = False
                 await self._deliver(w, h)
-            if pending_swap and held is None and isinstance(msg, EM.TagsUpdatedMsg):
+            if pending_swap and held is None and isinstance(msg, (EM.TagsUpdatedMsg, EM.ErrorLogMsg)):
                 held = msg
                 return None
             r = await self._deliver(w, msg)
